@@ -26,6 +26,12 @@ CLAIMED = {
  "C15": ("bounded model checking (Kani/CBMC+CaDiCaL) of DynSizedStructure::cast / get_tag for a family of user-defined sized and DST tag types and all built-in kinds with symbolic tag size",
          "22 user-defined types (sized +0..6 words; DST fixed 8/16/24 x elem 1,2,3,4,8,24; raw 4-aligned form fixed 8/12/20) and the built-in kinds, tag size 8..96: cast panics or returns same address with size_of_val == round8(size); fields alias the tag bytes.",
          "dev-profile semantics; 8-aligned DSTs with fixed part 12/20 cannot be compiled by Kani (ICE) and are not covered; known finding K01 (transient dangling reference inside cast)"),
+ "C16": ("bounded model checking (Kani/CBMC+CaDiCaL) of new_boxed with symbolic content split at symbolic cut points, and of clone_dyn for every DST kind",
+         "Content of 0..12 bytes in 0..3 slices: size field, gap-free concatenation, 8-aligned allocation of round8(total), Layout::for_value equals the allocation layout, drop under CBMC's free checks; clone_dyn of 10 DST kinds with every padding residue: same size, same bytes.",
+         "dev-profile semantics; content <= 12 bytes; ElfSectionsTag excluded (Kani ICE on its layout); Kani's allocator model never fails"),
+ "C17": ("bounded model checking (Kani/CBMC+CaDiCaL): string-tag parsing on symbolic tag bytes vs. a NUL/UTF-8 reference oracle (core's memchr and UTF-8 validation executed); constructor images for symbolic texts",
+         "Parse: all byte contents of a text area <= 3 bytes (thorough 4/8) with symbolic padding/neighbour bytes, plus <= 24 bytes with from_utf8 stubbed (NUL/extent half); outcome Ok/MissingNul/Utf8 equals the reference, never panics, never looks past the size. Build: all texts <= 5 bytes: size, single terminator, stored bytes.",
+         "dev-profile semantics; UTF-8 verdict of core trusted beyond 8 bytes; stub listed in evidence"),
  "C18": ("bounded model checking (Kani/CBMC+CaDiCaL) of the EFI memory-map iterator with symbolic descriptor size, version, map length and contents; exact-size object for bounds",
          "d in 0..=128, L in 0..=96 (thorough 200): accepted combinations yield exactly L/d descriptors at offset i*d with decoded fields and exact len()/size_hint(); all other combinations must panic; produced descriptors are aligned and inside the tag.",
          "dev-profile semantics; map <= 200 bytes"),
